@@ -47,6 +47,76 @@ def is_closed(S):
     return True
 
 
+def boundary_sweep():
+    """every generator at the boundaries its signature admits (no nodes, one node, probability 0 and 1, the largest
+    admissible order, edge size = core size, ...): the call must come back within 5 s, either refusing the input with
+    ValueError / XGIError or returning a network whose edges are sets of its own nodes"""
+    import signal, networkx as nx, numpy as np, xgi
+    fails = []
+    def guarded(f, secs=5):
+        def _alarm(s, fr): raise TimeoutError("timeout")
+        old = signal.signal(signal.SIGALRM, _alarm); signal.alarm(secs)
+        try:
+            return ("ok", f())
+        except TimeoutError:
+            return ("TIMEOUT", None)
+        except Exception as e:
+            return (type(e).__name__, str(e)[:80])
+        finally:
+            signal.alarm(0); signal.signal(signal.SIGALRM, old)
+    calls = []
+    for n in (0,1,2,3):
+        for m in (1,2,3):
+            for p in (0,1,0.5):
+                calls.append((f"uniform_erdos_renyi_hypergraph({n},{m},{p})", lambda n=n,m=m,p=p: xgi.uniform_erdos_renyi_hypergraph(n,m,p,seed=1)))
+        for ps in ([0.5],[1,1],[0],[1]):
+            calls.append((f"random_hypergraph({n},{ps})", lambda n=n,ps=ps: xgi.random_hypergraph(n,ps,seed=1)))
+            calls.append((f"fast_random_hypergraph({n},{ps})", lambda n=n,ps=ps: xgi.fast_random_hypergraph(n,ps,seed=1)))
+            calls.append((f"random_simplicial_complex({n},{ps})", lambda n=n,ps=ps: xgi.random_simplicial_complex(n,ps,seed=1)))
+        for p in (0,1):
+            calls.append((f"random_flag_complex({n},{p},2)", lambda n=n,p=p: xgi.random_flag_complex(n,p,max_order=2,seed=1)))
+            calls.append((f"random_flag_complex_d2({n},{p})", lambda n=n,p=p: xgi.random_flag_complex_d2(n,p,seed=1)))
+        calls.append((f"trivial_hypergraph({n})", lambda n=n: xgi.trivial_hypergraph(n)))
+    for a in ((1,1,0),(1,2,1),(2,1,0),(3,3,2),(1,3,0),(1,1,1)):
+        calls.append((f"star_clique{a}", lambda a=a: xgi.star_clique(*a)))
+    for l in (0,1,2):
+        for c in (0,1,2):
+            for m in (c, c+1, c+2):
+                calls.append((f"sunflower({l},{c},{m})", lambda l=l,c=c,m=m: xgi.sunflower(l,c,m)))
+    for a in ((3,2,2,1),(4,2,2,0),(5,3,2,1),(4,2,0,1),(2,2,2,1),(1,2,2,1),(6,3,4,2),(6,2,2,2)):
+        calls.append((f"ring_lattice{a}", lambda a=a: xgi.ring_lattice(*a)))
+    for a in ((4,2,2,1,0),(4,2,2,1,1),(5,3,2,1,0.5),(6,2,4,0,1)):
+        calls.append((f"watts_strogatz_hypergraph{a}", lambda a=a: xgi.watts_strogatz_hypergraph(*a, seed=1)))
+    for k,m in (({},2),({0:1,1:1},2),({0:0},2),({0:2,1:2,2:2},3),({0:1},2),({0:3,1:1},2)):
+        calls.append((f"config_model({k},{m})", lambda k=k,m=m: xgi.uniform_hypergraph_configuration_model(dict(k),m,seed=1)))
+    calls.append(("uniform_HSBM(2,2,ones,[1,1])", lambda: xgi.uniform_HSBM(2,2,np.ones((2,2)),[1,1],seed=1)))
+    calls.append(("uniform_HSBM(3,2,zeros,[1,2])", lambda: xgi.uniform_HSBM(3,2,np.zeros((2,2)),[1,2],seed=1)))
+    calls.append(("uniform_HPPM(4,2,2,0.5,1.0)", lambda: xgi.uniform_HPPM(4,2,2,0.5,1.0,seed=1)))
+    calls.append(("uniform_HPPM(4,2,2,0.5,0.0)", lambda: xgi.uniform_HPPM(4,2,2,0.5,0.0,seed=1)))
+    calls.append(("chung_lu({}, {})", lambda: xgi.chung_lu_hypergraph({}, {}, seed=1)))
+    calls.append(("chung_lu({0:1},{0:1})", lambda: xgi.chung_lu_hypergraph({0:1},{0:1}, seed=1)))
+    for G in (nx.empty_graph(0), nx.empty_graph(1), nx.path_graph(2), nx.complete_graph(3), nx.complete_graph(4)):
+        for mo in (1,2,3):
+            calls.append((f"flag_complex(n={G.number_of_nodes()},e={G.number_of_edges()},mo={mo})", lambda G=G,mo=mo: xgi.flag_complex(G,max_order=mo)))
+        calls.append((f"flag_complex_d2(n={G.number_of_nodes()},e={G.number_of_edges()})", lambda G=G: xgi.flag_complex_d2(G)))
+    for name, f in calls:
+        with warnings.catch_warnings():
+            warnings.simplefilter("ignore")
+            st, out = guarded(f)
+        if st == "ok":
+            try:
+                nodes = set(out.nodes)
+                if any(not set(m) <= nodes for m in out.edges.members()):
+                    fails.append((f"{PROP}:boundary:members", {"what": f"{name}: an edge has members that are not nodes", "generator": name}))
+            except Exception as e:  # noqa: BLE001
+                fails.append((f"{PROP}:boundary:result", {"what": f"{name}: result cannot be inspected ({type(e).__name__}: {e})", "generator": name}))
+        elif st == "TIMEOUT":
+            fails.append((f"{PROP}:boundary:timeout:{name.split('(')[0]}", {"what": f"{name} does not terminate (no result after 5 s)", "generator": name}))
+        elif st not in ("ValueError", "XGIError"):
+            fails.append((f"{PROP}:boundary:{st}:{name.split('(')[0]}", {"what": f"{name} raised {st}: {out}", "generator": name}))
+    return fails, len(calls)
+
+
 def generator_oracle(rng, rounds):
     """the contracts of the property text, checked on parameter grids and seeds"""
     import xgi, networkx as nx, numpy as np
@@ -371,10 +441,12 @@ def run(v):
     C.clean_cases(cdir)
     ofails = generator_oracle(rng, 60 if thorough else 12)
     failures += ofails
+    bfails, nboundary = boundary_sweep()
+    failures += bfails
     ndec = sum(len(t) for _, _, t in comb_t) + sum(len(t) for _, _, t in prod_t) + sum(len(t) for _, t in part_t)
     v.coverage.update({
         "evaluations": ndec + len(er_cases) + len(fast_cases) + len(complete_cases),
-        "complete_cases": len(complete_cases),
+        "complete_cases": len(complete_cases), "boundary_calls": nboundary,
         "distinct_nontrivial": len(comb_t) + len(prod_t) + len(part_t) + len({k for k, _ in er_cases}) + len({repr(k) for k, _ in fast_cases}),
         "rule": f"decoders exhaustively for n <= {nmax}, m <= 5 (combinations), n <= 4, m <= 3 (tuples) and 7 block-size lists; "
                 "uniform_erdos_renyi_hypergraph (both multiedge modes) and fast_random_hypergraph re-run in the model from "
